@@ -365,6 +365,13 @@ def main():
     except Exception as e:
         status['specs'] = 'failed: %s' % e
     try:
+        import cachesites
+        txt, sites = cachesites.lean_table(os.environ.get('IXPE_REPO', os.path.dirname(os.path.dirname(importlib.import_module('ixpeobssim').__file__))))
+        changed |= write_if_changed(os.path.join(GEN, 'CacheSites.lean'), txt)
+        status['cachesites'] = [list(x) for x in sites]
+    except Exception as e:
+        status['cachesites'] = 'failed: %s' % e
+    try:
         import rngsites
         txt, info = rngsites.table(os.environ.get('IXPE_REPO', os.path.dirname(os.path.dirname(importlib.import_module('ixpeobssim').__file__))))
         changed |= write_if_changed(os.path.join(GEN, 'RngSites.lean'), txt)
